@@ -350,6 +350,10 @@ func (conn *Conn) initialise() {
 	// A SASL exchange that the previous connection never finished must not
 	// leave an initial response behind to be sent on this one.
 	conn.saslRemainingData = nil
+	// Capabilities are negotiated per connection: what the server of an
+	// earlier connection advertised or enabled says nothing about this one.
+	conn.supportedCaps.Clear()
+	conn.currCaps.Clear()
 	if conn.st != nil {
 		conn.st.Wipe()
 	}
